@@ -336,9 +336,19 @@ pub fn worker_main(engine: &dyn Engine, tier: Tier, vseed: u64, start: u64, step
                 for v in vs {
                     // only the first few violations of a worker carry their (possibly
                     // large) case; the supervisor writes at most a handful of replays
-                    with_case += 1;
-                    let case = if with_case <= 6 { v.case } else { None };
-                    let j = json!({"k": k, "class": v.class, "detail": v.detail, "case": case});
+                    // known findings are matched here, where the case is at hand
+                    let kf = engine.known_finding(&v);
+                    let case = if kf.is_some() {
+                        None
+                    } else {
+                        with_case += 1;
+                        if with_case <= 6 {
+                            v.case
+                        } else {
+                            None
+                        }
+                    };
+                    let j = json!({"k": k, "class": v.class, "detail": v.detail, "case": case, "kf": kf});
                     let mut o = out.lock();
                     let _ = writeln!(o, "V {}", j);
                     let _ = o.flush();
@@ -441,6 +451,8 @@ pub struct RunOutcome {
 }
 
 struct Found {
+    /// id of the known finding the worker matched this violation to
+    kf: Option<String>,
     k: u64,
     class: String,
     detail: String,
@@ -577,6 +589,7 @@ pub fn supervise(engine: &dyn Engine, tier: Tier, vseed: u64) -> RunOutcome {
                             "V" => {
                                 if let Ok(v) = serde_json::from_str::<Value>(rest) {
                                     found.push(Found {
+                                        kf: v["kf"].as_str().map(|x| x.to_string()),
                                         k: v["k"].as_u64().unwrap_or(0),
                                         class: v["class"].as_str().unwrap_or("").to_string(),
                                         detail: v["detail"].as_str().unwrap_or("").to_string(),
@@ -725,7 +738,7 @@ pub fn supervise(engine: &dyn Engine, tier: Tier, vseed: u64) -> RunOutcome {
             detail: f.detail.clone(),
             case: f.case.clone(),
         };
-        if let Some(id) = engine.known_finding(&v) {
+        if let Some(id) = f.kf.as_deref().or_else(|| engine.known_finding(&v)) {
             if known.contains_key(id) {
                 *known_hit.entry(id.to_string()).or_insert(0) += 1;
                 continue;
